@@ -108,7 +108,7 @@ def shard_run(sh, ds, pool, dseed, rep):
     if pool > 0:
         cr.get_importances_estimate_pairwise = delayed   # installed before the pool forks: inherited by every worker
     else:
-        tr.Pool = lambda n: pipe.SyncPool()
+        tr.Pool = lambda *a_, **k_: pipe.SyncPool()
     ref_json = ''
     if cfg.get('reference'):
         import json
